@@ -695,8 +695,6 @@ def c15(tier):
             qs.append(prod_query("C15_prod_%s_allcont_so%d" % (sc, so), sc, {"DEV_KIND": 99, "DEV_POS": 0, "DEV_ANS": 0, "SYNTAX_ONLY": so}, "all handlers continue", tier))
         for (k, p) in script_sites(sc):
             for an, av in answers.items():
-                if tier == "quick" and an == "err7" and k not in (4, 7):
-                    continue
                 qs.append(prod_query("C15_prod_%s_k%d_p%d_%s" % (sc, k, p, an), sc, {"DEV_KIND": k, "DEV_POS": p, "DEV_ANS": "(%d)" % av, "SYNTAX_ONLY": 0},
                                      "one handler deviates at callback site (kind %d, token %d) with %s" % (k, p, an), tier))
     for sc in (["NVNV", "LNVV"] if tier == "quick" else ["NVNV", "LNVV", "HNVSNV"]):
